@@ -639,4 +639,39 @@ theorem number_truncated_of_syntax_r (r stp : Nat) (hr2 : 2 ≤ r) (hstp : 1 ≤
     (noSep_of_sep_zero c hsep _) (by rw [hslc]; exact h256) (by rw [hslc]; exact hlen) n cnt' hpn hmany
 
 
+/-! ## the decimal point of valid options is not a digit of the mantissa radix -/
+
+theorem charToValidDigit_mono {ch r R : Nat} (hch : ch < 256) (hle : r ≤ R) (h : R ≤ charToValidDigit ch R) :
+    r ≤ charToValidDigit ch r := by
+  unfold charToValidDigit at h ⊢
+  split_ifs at h ⊢ <;> omega
+
+theorem charToDigit_none_mono {ch r R : Nat} (hch : ch < 256) (hle : r ≤ R) (h : charToDigit ch R = none) :
+    charToDigit ch r = none := by
+  unfold charToDigit at h ⊢
+  dsimp only at h ⊢
+  split at h
+  · cases h
+  · rename_i hge
+    rw [if_neg (by have := charToValidDigit_mono hch hle (by omega); omega)]
+
+theorem dp_not_digit_r (feats : Features) (fmt : Format) (o : POpts)
+    (hv : isValidOptionsPunctuation feats fmt o.exp o.dp = true) : charToDigit o.dp fmt.mantissaRadix = none := by
+  unfold isValidOptionsPunctuation at hv
+  split at hv
+  · cases hv
+  · rename_i hc
+    simp only [Bool.or_eq_true, Bool.not_eq_true', not_or, Bool.not_eq_false] at hc
+    have h1 := hc.1
+    unfold isValidControl isValidOptionalControl at h1
+    simp only [Bool.and_eq_true, decide_eq_true_eq, Option.isNone_iff_eq_none, Bool.or_eq_true] at h1
+    obtain ⟨hne0, ⟨⟨hnone, _⟩, _⟩, hasc⟩ := h1
+    have hlt : o.dp < 256 := by
+      rcases hasc with h | h
+      · unfold isValidAscii at h
+        simp only [Bool.or_eq_true, Bool.and_eq_true, decide_eq_true_eq] at h
+        omega
+      · omega
+    exact charToDigit_none_mono hlt (by split <;> omega) hnone
+
 end LexVerif.Props.C05Number
